@@ -258,3 +258,65 @@ func H_C09_analysis_elements_conserve() {
 	}
 	vReach("end")
 }
+
+// H_C09_analysis_elements_lists: on pages with lists - nested ones included - the analysis elements still hold every
+// fragment's text exactly once.
+//
+//symgo:harness prop=C09 kernel=K6b-analysis-elements-lists
+//symgo:desc concrete page (enumerated shapes, no symbolic data): optionally a short 18 pt heading, an intro paragraph, a bulleted list of 2..3 top-level items of which one (enumerated) has 0..2 indented child items with a different bullet, and a closing paragraph, all at a normal 15 pt line pitch: every fragment's word marker occurs exactly once in the concatenated Text of AnalysisResult.Elements and exactly once in AnalysisResult.GetText()
+func H_C09_analysis_elements_lists() {
+	mk := func(s string, x, y float64) text.TextFragment {
+		return text.TextFragment{Text: s, X: x, Y: y, Width: float64(len(s)) * 6, Height: 12, FontSize: 12, FontName: "F1"}
+	}
+	top := vAnyIntIn(2, 3)
+	parent := vAnyIntIn(0, top-1)
+	kids := vAnyIntIn(0, 2)
+	var frags []text.TextFragment
+	var markers []string
+	y := 700.0
+	add := func(s, marker string, x float64) {
+		frags = append(frags, mk(s, x, y))
+		markers = append(markers, marker)
+		y -= 15
+	}
+	if vAnyIntIn(0, 1) == 1 {
+		// a short heading in a larger size above the text
+		frags = append(frags, text.TextFragment{Text: "Chapter One", X: 72, Y: y + 30, Width: 110, Height: 18, FontSize: 18, FontName: "F1"})
+		markers = append(markers, "Chapter")
+	}
+	add("Intro paragraph text here.", "Intro", 72)
+	y -= 15
+	for i := 0; i < top; i++ {
+		m := "Top" + string(rune('A'+i))
+		add("• "+m+" item", m, 72)
+		if i == parent {
+			for k := 0; k < kids; k++ {
+				c := "Kid" + string(rune('A'+k))
+				add("◦ "+c+" child", c, 92)
+			}
+		}
+	}
+	y -= 15
+	add("Closing paragraph.", "Closing", 72)
+	res := NewAnalyzer().Analyze(frags, 612, 792)
+	vAssert("result", res != nil)
+	all := ""
+	for _, e := range res.Elements {
+		all += e.Text + "\n"
+	}
+	whole := res.GetText()
+	count := func(s, sub string) int {
+		n := 0
+		for i := 0; i+len(sub) <= len(s); i++ {
+			if s[i:i+len(sub)] == sub {
+				n++
+			}
+		}
+		return n
+	}
+	for _, m := range markers {
+		vAssert("each-text-once-in-elements", count(all, m) == 1)
+		vAssert("each-text-once-in-analysis-text", count(whole, m) == 1)
+	}
+	vReach("end")
+}
